@@ -4,6 +4,6 @@ set -e
 cd "$(dirname "${BASH_SOURCE[0]}")"
 export GOFLAGS=-mod=mod GOPROXY=off GOSUMDB=off GOTOOLCHAIN=local GOWORK=off
 mkdir -p bin evidence replays
-go build -tags verif -o bin/keysim ./cmd/keysim
+go build -tags "verif verifauth verifwots" -o bin/keysim ./cmd/keysim
 [ -d cmd/instrument ] && go build -o bin/instrument ./cmd/instrument
 echo "setup: ok"
